@@ -18,7 +18,8 @@ type Options struct {
 	Voters        int    `json:"voters"`   // ids 1..Voters form the initial voter set
 	PreVote       bool   `json:"prevote"`
 	CheckQuorum   bool   `json:"checkquorum"`
-	MaxSizePerMsg uint64 `json:"maxsize"` // 0 or MaxUint64
+	MaxSizePerMsg uint64 `json:"maxsize"`                // 0 or MaxUint64
+	MaxCommitted  uint64 `json:"maxcommitted,omitempty"` // MaxCommittedSizePerReady (0 = same as MaxSizePerMsg)
 	ElectionTick  int    `json:"etick"`
 	HeartbeatTick int    `json:"htick"`
 	MaxInflight   int    `json:"inflight"`
@@ -40,6 +41,7 @@ type Event struct {
 	Fail   bool   `json:"fail,omitempty"`
 	Keep   uint64 `json:"keep,omitempty"`
 	All    bool   `json:"all,omitempty"` // ready: run all remaining sub-steps
+	Pad    int    `json:"pad,omitempty"` // propose: zero bytes appended to the 8-byte payload id (entry size)
 }
 
 const groupID = 7
@@ -158,16 +160,17 @@ func NewCluster(opt Options) (*Cluster, *Record, error) {
 
 func (c *Cluster) config(nd *nodeRT) *raft.Config {
 	return &raft.Config{
-		ID:              nd.id,
-		Group:           grp(nd.id),
-		ElectionTick:    c.Opt.ElectionTick,
-		HeartbeatTick:   c.Opt.HeartbeatTick,
-		Storage:         nd.st,
-		MaxSizePerMsg:   c.Opt.MaxSizePerMsg,
-		MaxInflightMsgs: c.Opt.MaxInflight,
-		CheckQuorum:     c.Opt.CheckQuorum,
-		PreVote:         c.Opt.PreVote,
-		Logger:          c.logger,
+		ID:                       nd.id,
+		Group:                    grp(nd.id),
+		ElectionTick:             c.Opt.ElectionTick,
+		HeartbeatTick:            c.Opt.HeartbeatTick,
+		Storage:                  nd.st,
+		MaxSizePerMsg:            c.Opt.MaxSizePerMsg,
+		MaxCommittedSizePerReady: c.Opt.MaxCommitted,
+		MaxInflightMsgs:          c.Opt.MaxInflight,
+		CheckQuorum:              c.Opt.CheckQuorum,
+		PreVote:                  c.Opt.PreVote,
+		Logger:                   c.logger,
 	}
 }
 
@@ -290,7 +293,7 @@ func (c *Cluster) apply(ev Event, rec *Record) {
 		if !needAlive() {
 			return
 		}
-		b := make([]byte, 8)
+		b := make([]byte, 8+ev.Pad)
 		binary.BigEndian.PutUint64(b, ev.P)
 		if err := nd.n.Propose(ctx, b); err != nil {
 			rec.Res = "err"
@@ -414,6 +417,9 @@ func (c *Cluster) apply(ev Event, rec *Record) {
 			return
 		}
 		raft.VerifSetRand(ev.Rnd)
+		if err := reopenStorage(nd); err != nil {
+			panic(err)
+		}
 		nd.n = raft.RestartNode(c.config(nd))
 		nd.alive = true
 		snap, err := nd.st.Snapshot()
@@ -568,6 +574,11 @@ func (c *Cluster) readyStage(nd *nodeRT, rec *Record) {
 			c.applySync(nd, rec)
 		}
 	case "send":
+		if len(nd.outIDs) > 0 {
+			d := c.diskProj(nd)
+			d.Log = nil
+			rec.SD = d
+		}
 		for _, id := range nd.outIDs {
 			m := c.net[-id]
 			delete(c.net, -id)
